@@ -71,6 +71,8 @@ Proof.
   - destruct l; [reflexivity|discriminate].
   - destruct l; [reflexivity|discriminate].
   - destruct l; [reflexivity|discriminate].
+  - apply andb_true_iff in H as [H1 H2]. apply N.eqb_eq in H1.
+    destruct (list_eq_dec N.eq_dec name name0); [subst; reflexivity|discriminate].
 Qed.
 
 (* ------------------------------------------------------------------ decidable equality of declarations is sound *)
